@@ -64,9 +64,14 @@ fn b2s(b: bool) -> &'static str {
     }
 }
 
-/// The decoded view of a received byte string (grammar in Driver/Mac.lean):
-///   `d <len> <confirmed> <fcnt16> <fcnt32|-> <fopts|-> <fport|-> <payload|->`   a well-formed data frame
-///        (the last four are `-` unless the MIC verifies at the hinted 32-bit counter),
+/// The decoded view of a byte string an END-DEVICE received (grammar in Driver/Mac.lean):
+///   `d <len> <confirmed> <fcnt16> <fcnt32|-> <fopts|-> <fport|-> <payload|->`   a well-formed DOWNLINK data
+///        frame, MType 011 (UnconfirmedDataDown) or 101 (ConfirmedDataDown)
+///        (the last four are `-` unless the MIC verifies at the hinted 32-bit counter, Dir = 1),
+///        An uplink MType (010 UnconfirmedDataUp, 100 ConfirmedDataUp: the device's own uplink echoed back,
+///        another device's uplink, any frame MIC'd with Dir = 0) is NOT a frame for this device, whatever
+///        its MIC (LoRaWAN 1.0.x §4.2.1: uplink messages are sent by end-devices to the network server):
+///        view `g`.  (`ref_uplink` below is the NETWORK's decoder of what the device transmits.)
 ///   `j 1 <devaddr> <dlsettings> <rxdelay> <cflist>`   an authentic JoinAccept under `root`,
 ///   `g`   anything else.
 pub fn ref_view(bytes: &[u8], nwk: &[u8; 16], app: &[u8; 16], root: &[u8; 16], mic_hint: Option<u32>) -> String {
@@ -76,13 +81,17 @@ pub fn ref_view(bytes: &[u8], nwk: &[u8; 16], app: &[u8; 16], root: &[u8; 16], m
     let mhdr = bytes[0];
     let mtype = mhdr >> 5;
     let major = mhdr & 3;
-    // data frames: MType 010..101, Major 0 (LoRaWAN R1)
-    if major == 0 && (2..=5).contains(&mtype) && bytes.len() >= 12 {
+    // uplink data frames are not for an end-device
+    if major == 0 && (mtype == 2 || mtype == 4) {
+        return "g".into();
+    }
+    // downlink data frames: MType 011 / 101, Major 0 (LoRaWAN R1)
+    if major == 0 && (mtype == 3 || mtype == 5) && bytes.len() >= 12 {
         let foptslen = (bytes[5] & 0x0f) as usize;
         let mic_at = bytes.len() - 4;
         if 8 + foptslen <= mic_at {
-            let conf = mtype == 4 || mtype == 5;
-            let dir = if mtype == 3 || mtype == 5 { 1u8 } else { 0u8 };
+            let conf = mtype == 5;
+            let dir = 1u8;
             let devaddr = &bytes[1..5];
             let f16 = u16::from_le_bytes([bytes[6], bytes[7]]);
             let authentic = match mic_hint {
